@@ -86,7 +86,10 @@ def polynomial_from_attributes(
     if coefficients:
         if dtype is None:
             dtype = numpy.result_type(*[coeff.dtype for coeff in coefficients])
-        coefficients = [numpy.asarray(coeff, dtype=dtype) for coeff in coefficients]
+        coefficients = [
+            numpy.require(coeff, dtype=dtype, requirements="CW")
+            for coeff in coefficients
+        ]
         shape = coefficients[0].shape
     else:
         dtype = dtype if dtype else int
